@@ -98,7 +98,7 @@ impl ChanBuilder {
                 name: vname,
                 component: fl.name().into(),
                 shape: shape_full.clone(),
-                props: CHAN_PROPS.to_vec(),
+                props: if sh.asyn { CHAN_PROPS.iter().copied().chain(["C06"]).collect() } else { CHAN_PROPS.to_vec() },
                 threads: nthreads,
                 ops,
                 cap: cap_name(sh.cap),
@@ -274,8 +274,48 @@ pub fn channel_scenarios() -> Vec<Scenario> {
     b.out
 }
 
+/// oneshot (hook H5): `send` consumes its handle and there is no blocking receive, so it has its own shapes
+pub fn oneshot_scenarios() -> Vec<Scenario> {
+    use Step::*;
+    let mut b = ChanBuilder { out: Vec::new() };
+    let fl = Flavour::Oneshot;
+    let sh = |name: &'static str, threads: Vec<ThreadProg>| Shape { name, cap: Some(1), asyn: true, n_tx: 1, n_rx: 1, drains: true, prefill: vec![], threads };
+    // the receiver awaits the value while the only sender sends and goes away
+    b.add(fl, sh("send_vs_recv", vec![tp(None, Some(0), vec![Recv]), tp(Some(0), None, vec![TrySend(1)])]));
+    // ... or probes first (try_recv racing the WRITING -> SENT window), then awaits
+    b.add(fl, sh("send_vs_try_recv_then_recv", vec![tp(None, Some(0), vec![TryRecv, Recv]), tp(Some(0), None, vec![TrySend(1)])]));
+    // the sender goes away without sending: the awaiting receiver must be woken with Disconnected
+    b.add(fl, sh("txdrop_vs_recv", vec![tp(None, Some(0), vec![Recv]), tp(Some(0), None, vec![])]));
+    // a recv future is polled once and dropped while the sender sends; a fresh recv must still get the value
+    b.add(fl, sh("recvfut_drop_vs_send", vec![tp(None, Some(0), vec![RecvPollDrop, Recv]), tp(Some(0), None, vec![TrySend(1)])]));
+    // receiver dropped while the sender is between its checks: Ok (orphan destroyed once) or Closed (handed back)
+    b.add(fl, Shape { drains: false, ..sh("rxdrop_vs_send", vec![tp(None, Some(0), vec![DropRx]), tp(Some(0), None, vec![TrySend(1)])]) });
+    b.add(fl, Shape { drains: false, ..sh("try_recv_rxdrop_vs_send", vec![tp(None, Some(0), vec![TryRecv, DropRx]), tp(Some(0), None, vec![TrySend(1)])]) });
+    // two sender clones race: exactly one wins, the loser gets its value back, the receiver gets the winner's
+    b.add(fl, Shape { n_tx: 2, ..sh("2tx_race_vs_recv", vec![tp(None, Some(0), vec![Recv]), tp(Some(0), None, vec![TrySend(11)]), tp(Some(1), None, vec![TrySend(21)])]) });
+    b.add(fl, Shape { n_tx: 2, ..sh("2tx_race_idle_rx", vec![tp(None, Some(0), vec![JoinAll, Recv]), tp(Some(0), None, vec![TrySend(11)]), tp(Some(1), None, vec![TrySend(21)])]) });
+    // one clone is dropped while the other sends: the receiver must not see Disconnected instead of the value
+    b.add(fl, Shape { n_tx: 2, ..sh("txclone_drop_vs_send_vs_recv", vec![tp(None, Some(0), vec![Recv]), tp(Some(0), None, vec![TrySend(11)]), tp(Some(1), None, vec![DropTx])]) });
+    // sender racing a receiver drop with a second sender clone still alive afterwards (backtrack path)
+    b.add(fl, Shape { n_tx: 2, drains: false, ..sh("rxdrop_vs_2tx", vec![tp(None, Some(0), vec![DropRx]), tp(Some(0), None, vec![TrySend(11)]), tp(Some(1), None, vec![TrySend(21)])]) });
+    let mut out = b.out;
+    for s in out.iter_mut() {
+        // small spaces: deeper bounds than the default tiers
+        if s.threads == 2 {
+            s.pb_quick = Some(3);
+            s.pb_thorough = Some(6);
+        } else {
+            s.pb_quick = Some(2);
+            s.pb_thorough = Some(4);
+        }
+        s.props = vec!["C01", "C03", "C04", "C06", "C09"];
+    }
+    out
+}
+
 pub fn all_scenarios() -> Vec<Scenario> {
     let mut v = channel_scenarios();
+    v.extend(oneshot_scenarios());
     v.extend(bcast::scenarios());
     v.extend(locks::scenarios());
     v
